@@ -1028,10 +1028,11 @@ func (ex *Exec) run(s *astate) ([]*astate, *AOutcome, error) {
 	}
 }
 
-// plainSource recognises the zero-extension of one whole source.
+// plainSource recognises the zero-extension of one whole source, or of a contiguous field of one
+// (x & 63, x >> 4 of an 8-bit x, …): the field is then a source of its own, named "src<hi:lo>".
 func plainSource(b BitVec) (string, bool) {
 	n := 0
-	for n < len(b) && b[n].Kind == BSrc && b[n].More == "" && !b[n].Neg && b[n].Src == b[0].Src && b[n].Idx == n {
+	for n < len(b) && b[n].Kind == BSrc && b[n].More == "" && !b[n].Neg && b[n].Src == b[0].Src && b[n].Idx == b[0].Idx+n {
 		n++
 	}
 	if n == 0 {
@@ -1042,10 +1043,15 @@ func plainSource(b BitVec) (string, bool) {
 			return "", false
 		}
 	}
-	if w, ok := srcWidths[b[0].Src]; !ok || w != n {
-		return "", false
+	if w, ok := srcWidths[b[0].Src]; ok && w == n && b[0].Idx == 0 {
+		return b[0].Src, true
 	}
-	return b[0].Src, true
+	if strings.Contains(b[0].Src, "<") && strings.HasSuffix(b[0].Src, ">") {
+		return "", false // no fields of fields
+	}
+	name := fmt.Sprintf("%s<%d:%d>", b[0].Src, b[0].Idx+n-1, b[0].Idx)
+	srcWidths[name] = n
+	return name, true
 }
 
 // refine records what a comparison of a whole source with a constant tells about the source
@@ -1092,6 +1098,42 @@ func (ex *Exec) refine(t, f *astate, fr *aframe, cond ssa.Value) {
 		return
 	}
 	op := bo.Op
+	// (x & mask) == 0 / != 0 with a contiguous mask: the field src<hi:lo> is 0 / at least 1
+	if op == token.EQL || op == token.NEQ {
+		a, b := l.Bits, r.Bits
+		if k0, ok := constOfBits(a); ok && k0 == 0 {
+			a, b = b, a
+		}
+		if k0, ok := constOfBits(b); ok && k0 == 0 {
+			lo := 0
+			for lo < len(a) && a[lo].Kind == BZero {
+				lo++
+			}
+			if lo > 0 && lo < len(a) && a[lo].Kind == BSrc && a[lo].More == "" && !a[lo].Neg {
+				n := 0
+				for lo+n < len(a) && a[lo+n].Kind == BSrc && a[lo+n].More == "" && !a[lo+n].Neg && a[lo+n].Src == a[lo].Src && a[lo+n].Idx == a[lo].Idx+n {
+					n++
+				}
+				rest := true
+				for i := lo + n; i < len(a); i++ {
+					if a[i].Kind != BZero {
+						rest = false
+					}
+				}
+				if rest && n > 0 && n < 63 {
+					if name, okN := plainSource(append(append(BitVec(nil), a[lo:lo+n]...), Bit{Kind: BZero})); okN {
+						zero, nonzero := t, f
+						if op == token.NEQ {
+							zero, nonzero = f, t
+						}
+						zero.setRange(name, false, 0, 0)
+						nonzero.setRange(name, false, 1, int64(1)<<uint(n)-1)
+						return
+					}
+				}
+			}
+		}
+	}
 	// (src >> n) == 0  /  != 0: the bits of src from n up are zero on the "== 0" side
 	if op == token.EQL || op == token.NEQ {
 		a, b := l.Bits, r.Bits
